@@ -1668,9 +1668,25 @@ func checkLookAssertion(look Look, haystack []byte, pos int) bool {
 		// No boundary when is_word(prev) == is_word(curr)
 		wordBefore := pos > 0 && isWordByte(haystack[pos-1])
 		wordAfter := pos < len(haystack) && isWordByte(haystack[pos])
-		return wordBefore == wordAfter
+		return wordBefore == wordAfter && !insideRune(haystack, pos)
 	}
 	return false
+}
+
+// insideRune reports whether pos splits a valid multi-byte UTF-8 sequence.
+// stdlib regexp steps rune by rune and never tests an assertion there; the
+// byte-based engines can reach such a position (unanchored search restarts at
+// every byte) and \B would hold between two non-ASCII bytes.
+func insideRune(haystack []byte, pos int) bool {
+	if pos <= 0 || pos >= len(haystack) || utf8.RuneStart(haystack[pos]) {
+		return false
+	}
+	start := pos - 1
+	for start > 0 && start > pos-3 && !utf8.RuneStart(haystack[start]) {
+		start--
+	}
+	_, width := utf8.DecodeRune(haystack[start:])
+	return start+width > pos
 }
 
 // =============================================================================
